@@ -636,11 +636,14 @@ def check_C04(tier, seed):
         ps += run.export("GenQuery", f"G{nv}-sim", "PROG", constants=dict(G="G12", NV=nv, LeafLimit=45 if nv == 1 else 34, MaxLeaves=4,
                                                                          MaxNot=2, NeedNot=False),
                          simulate=500 if quick else 4000, depth=14, count=False)
+        # every single leaf of the full vocabulary (user code in comparison operands, predicates, ...) with and without not_
+        ps += run.export("GenQuery", f"G{nv}-leaves", "PROG", constants=dict(G="G12", NV=nv, LeafLimit=60, MaxLeaves=1, MaxNot=1,
+                                                                            NeedNot=False), count=False)
         progs[nv] = ps
     for b in behs:
-        for _ in range(1 if quick else 3):
+        needs_pred = any(o["op"] == "raised" for o in b)
+        for _ in range((2 if needs_pred else 1) if quick else 3):
             nv = rng.choice((1, 2))
-            needs_pred = any(o["op"] == "raised" for o in b)
             pool = _with_user_code(progs[nv]) if needs_pred and rng.random() < 0.8 else progs[nv]
             W, doms = _world_and_doms(rng, nv, quick)
             qs = [mk_query(rng.choice(pool), doms), mk_query(rng.choice(progs[nv]), doms)]
